@@ -8,7 +8,9 @@ package vrt
 
 import (
 	"fmt"
+	"reflect"
 	"runtime"
+	"sync"
 	"time"
 )
 
@@ -18,7 +20,7 @@ type thread struct {
 	bt      baton
 	done    bool
 	started bool
-	enabled func() bool
+	wait    Waitable // pending operation (nil: running)
 	what    string
 	fn      func()
 	steps   int
@@ -42,7 +44,32 @@ type Sched struct {
 	Overrun  bool
 	finished int
 	OnIdle   func() bool // optional environment action when nothing is enabled: returns true if it changed something
+	// OnBlocked, when set, is told about every thread found disabled at a scheduling decision
+	OnBlocked func(thread, what string, clock, nextTimer time.Duration)
+	// join is a real synchronisation at the very end of the execution (thread exit -> Run
+	// returning): it lets the caller read what the threads recorded without that being a race,
+	// and cannot hide a race between threads because nothing runs after it.
+	join sync.WaitGroup
 }
+
+// AdvanceTo moves the virtual clock forward and fires every timer that is due.
+//
+//go:norace
+func (s *Sched) AdvanceTo(d time.Duration) {
+	if d > s.clock {
+		s.clock = d
+	}
+	for _, t := range s.timers {
+		if t.pending && t.at <= s.clock {
+			t.fire()
+		}
+	}
+}
+
+// Clock returns the virtual time offset.
+//
+//go:norace
+func (s *Sched) Clock() time.Duration { return s.clock }
 
 // Active is the scheduler of the execution in progress (nil: shims fall through).
 var Active *Sched
@@ -58,7 +85,7 @@ func New(choose func(n int, label string, free bool) int) *Sched {
 // Go registers a thread (before Run).
 func (s *Sched) Go(name string, fn func()) {
 	t := &thread{id: len(s.threads), name: name, bt: newBaton(), fn: fn}
-	t.enabled = func() bool { return true }
+	t.wait = Always
 	t.what = "start"
 	s.threads = append(s.threads, t)
 }
@@ -79,46 +106,64 @@ func (s *Sched) Run() {
 	Active = s
 	for _, t := range s.threads {
 		t := t
+		s.join.Add(1)
 		go s.threadMain(t)
 	}
 	s.dispatch(nil)
 	s.mainBt.park()
+	s.join.Wait()
 	Active = nil
 }
 
 //go:norace
 func (s *Sched) threadMain(t *thread) {
 	t.bt.park()
-	defer func() {
-		// the thread ends (normally, by Goexit during tear-down, or by a panic)
-		r := recover()
-		t.done = true
-		s.finished++
-		if r != nil {
-			s.Deadlock = fmt.Sprintf("PANIC in thread %s: %v", t.name, r)
-			s.poisonAll()
-		}
-		if s.poison {
-			s.tearDownNext()
-			return
-		}
-		s.dispatch(nil)
-	}()
+	defer s.join.Done()
+	defer s.threadExit(t)
 	if s.poison {
 		return
 	}
 	t.started = true
-	t.enabled = nil
+	t.wait = nil
 	t.fn()
 }
 
-func alwaysEnabled() bool { return true }
-
-// Point is a scheduling point of the running thread: what describes the pending operation,
-// enabled tells whether it can complete without blocking.
+// threadExit runs when a thread ends (normally, by Goexit during tear-down, or by a panic).
 //
 //go:norace
-func (s *Sched) Point(what string, enabled func() bool) {
+func (s *Sched) threadExit(t *thread) {
+	r := recover()
+	t.done = true
+	s.finished++
+	if r != nil {
+		s.Deadlock = fmt.Sprintf("PANIC in thread %s: %v", t.name, r)
+		s.poisonAll()
+	}
+	if s.poison {
+		s.tearDownNext()
+		return
+	}
+	s.dispatch(nil)
+}
+
+// Waitable tells whether a pending operation can complete without blocking.  Ready is
+// evaluated by whichever thread takes the scheduling decision, so implementations must be
+// //go:norace methods on plain data (no closures: a closure body is instrumented and reading
+// its captured variables from another thread would be reported as a race of the harness).
+type Waitable interface{ Ready() bool }
+
+type always struct{}
+
+func (always) Ready() bool { return true }
+
+// Always is the Waitable of operations that never block.
+var Always Waitable = always{}
+
+// Point is a scheduling point of the running thread: what describes the pending operation,
+// w tells whether it can complete without blocking (nil: always).
+//
+//go:norace
+func (s *Sched) Point(what string, w Waitable) {
 	if s.poison {
 		return
 	}
@@ -133,15 +178,15 @@ func (s *Sched) Point(what string, enabled func() bool) {
 		s.poisonAll()
 		runtime.Goexit()
 	}
-	if enabled == nil {
-		enabled = alwaysEnabled
+	if w == nil {
+		w = Always
 	}
-	t.enabled, t.what = enabled, what
+	t.wait, t.what = w, what
 	s.dispatch(t)
 	if s.poison {
 		runtime.Goexit()
 	}
-	t.enabled = nil
+	t.wait = nil
 }
 
 // dispatch takes one scheduling decision; from is the thread calling (nil: main or a
@@ -152,7 +197,7 @@ func (s *Sched) dispatch(from *thread) {
 	for {
 		var opts []*thread
 		curEnabled := false
-		if from != nil && !from.done && from.enabled != nil && from.enabled() {
+		if from != nil && !from.done && from.wait != nil && from.wait.Ready() {
 			opts = append(opts, from)
 			curEnabled = true
 		}
@@ -165,8 +210,14 @@ func (s *Sched) dispatch(from *thread) {
 			if t == from {
 				continue
 			}
-			if t.enabled != nil && t.enabled() {
+			if t.wait != nil && t.wait.Ready() {
 				opts = append(opts, t)
+			} else if s.OnBlocked != nil && t.wait != nil {
+				nt := time.Duration(-1)
+				if tm := s.nextTimer(); tm != nil {
+					nt = tm.at
+				}
+				s.OnBlocked(t.name, t.what, s.clock, nt)
 			}
 		}
 		if alive == 0 {
@@ -282,12 +333,27 @@ func (s *Sched) CurID() int {
 // ---------------------------------------------------------------------------------------
 // channel shims
 
+// chanWait is the Waitable of a channel operation.
+type chanWait struct {
+	ch   any
+	send bool
+}
+
+//go:norace
+func (c *chanWait) Ready() bool {
+	v := reflect.ValueOf(c.ch)
+	if c.send {
+		return v.Len() < v.Cap()
+	}
+	return v.Len() > 0
+}
+
 // Recv is `<-ch`.
 //
 //go:norace
 func Recv[T any](ch <-chan T) T {
 	if s := Active; s != nil && s.cur != nil {
-		s.Point("recv", func() bool { return len(ch) > 0 })
+		s.Point("recv", &chanWait{ch: ch})
 		if s.poison {
 			select {
 			case v := <-ch:
@@ -306,7 +372,7 @@ func Recv[T any](ch <-chan T) T {
 //go:norace
 func Send[T any](ch chan<- T, v T) {
 	if s := Active; s != nil && s.cur != nil {
-		s.Point("send", func() bool { return len(ch) < cap(ch) })
+		s.Point("send", &chanWait{ch: ch, send: true})
 		if s.poison {
 			select {
 			case ch <- v:
@@ -319,15 +385,35 @@ func Send[T any](ch chan<- T, v T) {
 }
 
 // Case is one select case.
-type Case struct {
-	ready func() bool
-}
+type Case struct{ w chanWait }
 
 // R is a receive case.
-func R[T any](ch <-chan T) Case { return Case{ready: func() bool { return len(ch) > 0 }} }
+//
+//go:norace
+func R[T any](ch <-chan T) Case { return Case{chanWait{ch: ch}} }
 
 // S is a send case.
-func S[T any](ch chan<- T) Case { return Case{ready: func() bool { return len(ch) < cap(ch) }} }
+//
+//go:norace
+func S[T any](ch chan<- T) Case { return Case{chanWait{ch: ch, send: true}} }
+
+type selWait struct {
+	cases      []Case
+	hasDefault bool
+}
+
+//go:norace
+func (w *selWait) Ready() bool {
+	if w.hasDefault {
+		return true
+	}
+	for i := range w.cases {
+		if w.cases[i].w.Ready() {
+			return true
+		}
+	}
+	return false
+}
 
 // Select decides which case of a select statement is taken: it returns the index of a ready
 // case, or -1 for the default clause.  The caller re-issues the real operation, which cannot
@@ -339,21 +425,13 @@ func Select(hasDefault bool, cases ...Case) int {
 	if s == nil || s.cur == nil {
 		return -2
 	}
-	anyReady := func() bool {
-		for _, c := range cases {
-			if c.ready() {
-				return true
-			}
-		}
-		return false
-	}
-	s.Point("select", func() bool { return hasDefault || anyReady() })
+	s.Point("select", &selWait{cases: cases, hasDefault: hasDefault})
 	if s.poison {
 		return -2
 	}
 	var ready []int
-	for i, c := range cases {
-		if c.ready() {
+	for i := range cases {
+		if cases[i].w.Ready() {
 			ready = append(ready, i)
 		}
 	}
